@@ -9,12 +9,13 @@ from spec import oracle as orc
 from . import domain as D
 from . import ops
 from .c02 import splits_pair
+from . import c11 as _c11
 from .common import Recorder, Timeout, time_limit
 
 SCHEMAS = ["basic", "list", "strict", "iso", "table"]
 
 
-def perform(rec, name, O, doc, what, call, fn, structure_only=True):
+def perform(rec, name, O, doc, what, call, fn, structure_only=True, events=()):
     from prosemirror.transform import Transform
 
     tr = Transform(doc)
@@ -24,8 +25,11 @@ def perform(rec, name, O, doc, what, call, fn, structure_only=True):
     except Timeout:
         rec.violation(f"{what}-hangs", "approved edit does not return within 2 s", call)
         return
+    except _c11.FitterNoProgress as e:
+        rec.violation(f"{what}-hangs", f"approved edit does not terminate: {e}", call, ["fitter-no-progress"])
+        return
     except Exception as e:  # noqa: BLE001
-        rec.violation(f"{what}-approved-but-fails", f"{type(e).__name__}: {e}", call)
+        rec.violation(f"{what}-approved-but-fails", f"{type(e).__name__}: {e}", call, events)
         return
     why = O.valid(tr.doc)
     if why:
@@ -38,6 +42,7 @@ def perform(rec, name, O, doc, what, call, fn, structure_only=True):
 def run(tier, seed, findings):
     from prosemirror.transform import structure
 
+    _c11.install_probe()
     rec = Recorder("C12")
     rnd = random.Random(seed)
     for name in SCHEMAS:
@@ -136,7 +141,11 @@ def run(tier, seed, findings):
                     tgt = None
                 if tgt is not None:
                     rec.count("approved lift")
-                    perform(rec, name, O, doc, "lift", call, lambda tr: tr.lift(r, tgt))
+                    # ghost event for the call-site keyed finding: the lift crosses >= 2 levels
+                    # while the range leaves later siblings behind in its own parent, so the
+                    # remainder has to be re-wrapped after the lifted content
+                    ev = ["lift-leaves-later-siblings-across-levels"] if (r.depth - tgt >= 2 and r.end_index < r.parent.child_count) else []
+                    perform(rec, name, O, doc, "lift", call, lambda tr: tr.lift(r, tgt), events=ev)
                 for tn in wrap_types:
                     call = dict(fn="find_wrapping", schema=name, doc=dj, f=f, t=t, type=tn)
                     try:
